@@ -421,6 +421,13 @@ func (in *c13Inst) do(ev *pipeline.Event) (res string, status string) {
 		if r := recover(); r != nil {
 			kind := c13PanicKind(r)
 			site := c13PanicSite()
+			if kind == "bounds" {
+				stk := make([]byte, 1<<14)
+				stk = stk[:runtime.Stack(stk, false)]
+				if bytes.Contains(stk, []byte("insane-json.(*decoder).getNode")) {
+					kind = "insane-nodepool" // see c13ViaChild: crash:insane-nodepool
+				}
+			}
 			res = "-"
 			if kind == "exit" {
 				status = "exit@" + site
@@ -749,6 +756,10 @@ func c13ViaChild(cmdName string, t *hx.Toks) string {
 				return "hang"
 			case code == c13ExitOOM:
 				return "oom"
+			case strings.Contains(tail, "insane-json.(*decoder).getNode") && strings.Contains(tail, "index out of range"):
+				// insane-json v0.1.9: a document whose node count ends exactly at the node pool's
+				// length leaves no spare node; the next getNode() (any AddField) indexes past it
+				return "crash:insane-nodepool"
 			case strings.Contains(tail, "stack overflow") || strings.Contains(tail, "stack exceeds"):
 				return "crash:stack-overflow"
 			case strings.Contains(tail, "concurrent map"):
